@@ -3048,7 +3048,7 @@ fn panic_text(p: Box<dyn std::any::Any + Send>) -> String {
     }
 }
 
-pub async fn run_cases(cases: &[Value], scratch: &Path, out: &mut Summary) -> Result<()> {
+pub async fn run_cases(cases: &[Value], scratch: &Path, out: &mut Summary, known: &[String]) -> Result<()> {
     let sch: BTreeMap<String, Entry> =
         schema().into_iter().map(|e| (e.name.clone(), e)).collect();
     let ctx = Arc::new(Ctx {
@@ -3059,7 +3059,7 @@ pub async fn run_cases(cases: &[Value], scratch: &Path, out: &mut Summary) -> Re
     // panics are caught per case and reported: keep stderr quiet
     let hook = std::panic::take_hook();
     std::panic::set_hook(Box::new(|_| {}));
-    let result = run_all(cases, &sch, ctx.clone(), out).await;
+    let result = run_all(cases, &sch, ctx.clone(), out, known).await;
     std::panic::set_hook(hook);
     ctx.cleanup().await;
     result
@@ -3070,6 +3070,7 @@ async fn run_all(
     sch: &BTreeMap<String, Entry>,
     ctx: Arc<Ctx>,
     out: &mut Summary,
+    known: &[String],
 ) -> Result<()> {
     let mut types = BTreeSet::new();
     for case in cases {
@@ -3101,7 +3102,29 @@ async fn run_all(
                 out.count(&format!("ok_{}", c.name), 1);
                 continue;
             }
+            // Noop events are placeholders that are never stored or sent: the
+            // codec refuses them (by panicking); that refusal is the expected outcome
+            if c.name == "panic" && case["dims"]["variant"] == "Noop" && c.detail.contains("attempt to encode a noop") {
+                out.count("noop_refused", 1);
+                continue;
+            }
             out.count(&format!("fail:{ty}:{}", c.name), 1);
+            // listed findings (known_findings.jsonl)
+            let listed: Option<&str> = if ty == "EventRecordRow" && c.detail.contains("last_commit") {
+                Some("RowDropsLastCommit")
+            } else if ty == "EventRecordRow" && case["dims"]["time"] == "min" {
+                Some("RowNegativeYear")
+            } else if ty == "SharedAccess" && case["dims"]["variant"] == "write65536" {
+                Some("SharedAccessCountU16")
+            } else {
+                None
+            };
+            if let Some(k) = listed {
+                if known.iter().any(|x| x == k) {
+                    out.known(k, format!("{key}: {} failed: {}", c.name, c.detail).chars().take(280).collect());
+                    continue;
+                }
+            }
             let mut summary = format!("C14 {key}: {} failed: {}", c.name, c.detail);
             if summary.chars().count() > 295 {
                 summary = summary.chars().take(294).collect::<String>() + "\u{2026}";
